@@ -169,7 +169,7 @@ URLS_ANGLE = [b"", b"/a b", b"/a(b)c", b"/u", b"a)b("]
 TITLES = [b"t", b"a title", b'q"uo"te', b"it's", b"<b> & c", b"(p)", b"back\\slash", b"*s* _u_", b"caf\xc3\xa9"]
 LABELS = [b"foo", b"bar", b"Baz", b"ref1", b"\xc3\xa9t\xc3\xa9", b"a1", b"LONGLABEL"]
 FNLABELS = [b"1", b"a", b"note", b"n2", b"z9"]
-INFOS = [b"", b"", b"rust", b"c++", b"python extra", b"c# a b", b".net", b"x_y"]
+INFOS = [b"", b"", b"rust", b"c++", b"python extra", b"c# a b", b".net", b"x_y", b"math", b"math x"]
 CODELINES = [b"x", b"let a = 1;", b"", b"  indented", b"<b>&amp;</b>", b"* not a list", b"# not a heading", b"``", b"~~", b"    four", b"a\\b", b"> q", b"caf\xc3\xa9",
              b"trailing  ", b"- x", b"1. y", b"|a|b|", b"[r]: /u"]
 AUTO = [b"http://a.b/c", b"https://x.y/?q=1", b"ftp://h/p", b"mailto:me@x.y", b"irc:chan", b"http://a.b/c'd", b"http://a.b/*x*", b"https://e.f/_u_"]
